@@ -104,7 +104,7 @@ def run(chk):
                     o = zoo.build(name, x.copy(), nfft, 1.0, False, **over)
                     first = np.array(o.psd)
                     o.NFFT = c * nfft
-                    return first, np.array(o.get_converted_psd(o._default_sides())), np.array(o.psd)
+                    return first, np.array(o.get_converted_psd('onesided' if o.datatype == 'real' else 'twosided')), np.array(o.psd)
                 ok1, r = call_guard(live)
                 ok2, fresh = call_guard(lambda: np.array(zoo.build(name, x.copy(), c * nfft, 1.0, False, **over).psd))
                 ev['raised'] = not (ok1 and ok2)
